@@ -48,6 +48,8 @@ func (sp ByteSlicePool) Get(capacity int) []byte {
 		return make([]byte, 0, capacity)
 	}
 	buf := bp.([]byte)
+	// Clear the entire capacity, not just the length the previous user left: the slice may have been shortened before being put back
+	buf = buf[:cap(buf)]
 	// This will be optimized by the compiler
 	for i := range buf {
 		buf[i] = 0
